@@ -838,7 +838,7 @@ func init() {
 					return true, "notePosition"
 				}
 				if me := fi.isCall(e, fnMapErrors); me != nil {
-					if lit, ok := ast.Unparen(me.Args[1]).(*ast.FuncLit); ok {
+					if lit, ok := ast.Unparen(fi.deref(me.Args[1])).(*ast.FuncLit); ok { // (the mapping closure may have a name)
 						all := true
 						ast.Inspect(lit.Body, func(nd ast.Node) bool {
 							if ret, ok := nd.(*ast.ReturnStmt); ok && len(ret.Results) == 1 {
